@@ -285,6 +285,45 @@ def sequence_programs():
     return out
 
 
+def reentry_programs():
+    """a `return` (from the try block, from a catch block) is pending while the finally block runs, and the finally
+    block runs the SAME function again (directly / through a second function / inside a loop), so the same return
+    statement completes once more before the pending one does: every call must still return ITS value; a return
+    in the finally block overrides also after it recursed; a throw pending while finally recurses stays the same
+    throw.  Each call's returned value is echoed."""
+    out = []
+    n = var("n")
+    dec = ["bin", "Sub", n, lit(1)]
+    val = lambda: ["bin", "Add", ["bin", "Mul", n, lit(10)], lit(7)]              # depends on the activation
+    for via in ("f", "g"):
+        g = {"name": "g", "params": [["n", None]], "body": [tag("[g", n), ["return", ["bin", "Add", ["call", "f", [n]], lit(1000)]]]}
+        again = lambda: [["if", ["bin", "Gt", n, lit(0)], [["expr", ["assign", "r", ["call", via, [dec]]]], tag(" inner", var("r")), tag("@", n)], [], []]]
+        loop_again = lambda: [["for", [["assign", "j", lit(0)]], ["bin", "Lt", var("j"), n], [["postinc", "j"]],
+                               [["expr", ["assign", "r", ["call", via, [var("j")]]]], tag(" in", var("r")), tag("@", n)]]]
+        variants = {
+            "try-return": [["try", [tag("(t", n), ["return", val()]], [], again() + [tag(" f", n)]], ["return", lit(-1)]],
+            "catch-return": [["try", [tag("(t", n), ["throw", ["new", "E1", lit("x")]]],
+                              [["E1", "e", [tag("<c", n), ["return", val()]]]], again() + [tag(" f", n)]], ["return", lit(-1)]],
+            "override": [["try", [["return", val()]], [], [["if", ["bin", "Gt", n, lit(0)],
+                          [["expr", ["assign", "r", ["call", via, [dec]]]], ["return", ["bin", "Add", ["bin", "Mul", var("r"), lit(100)], n]]], [], []]]],
+                         ["return", lit(-1)]],
+            "loop": [["try", [["return", val()]], [], loop_again() + [tag(" f", n)]], ["return", lit(-1)]],
+            "nested-try": [["try", [["try", [["return", val()]], [], again() + [tag(" f1:", n)]]], [], again() + [tag(" f2:", n)]], ["return", lit(-1)]],
+            "return-expr-call": [["try", [["return", ["bin", "Add", val(), ["call", "id", [n]]]]], [], again() + [tag(" f", n)]], ["return", lit(-1)]],
+            "throw-pending": [["try", [["if", ["bin", "Eq", n, lit(2)], [["throw", ["new", "E2", lit("top")]]], [], []], ["return", val()]], [],
+                               again() + [tag(" f", n)]], ["return", lit(-1)]],
+        }
+        ident = {"name": "id", "params": [["x", None]], "body": [["return", var("x")]]}
+        for name, body in variants.items():
+            f = {"name": "f", "params": [["n", None]], "body": body}
+            for depth in (1, 2, 3):
+                main = [["try", [tag("R=", ["call", "f", [lit(depth)]]), tag(" again=", ["call", "f", [lit(0)]])],
+                         [["E1", "e", [echo("<E1>"), ["echo", ["msg", var("e")]]]]], [echo(" F")]],
+                        tag(" flat=", ["call", "f", [lit(0)]])]
+                out.append({"classes": CLASSES, "ifaces": IFACES, "funcs": [f, ident] + ([g] if via == "g" else []), "main": main})
+    return out
+
+
 def hierarchy_programs():
     """interfaces declared at every level of the extends chain (own class, parent, grandparent) and reached through
     interface-extends chains; the catch clauses are ordered so that a wrong answer of the type test changes which
@@ -459,6 +498,14 @@ def cli_cases():
                       "register_shutdown_function(function() { echo \"s2;\"; });\necho \"out;\";\n", "out;s1;"))
     out.append((1, 0, "<?php\nob_start();\nregister_shutdown_function(function() { echo \"s1;\"; throw new Exception(\"in s1\"); });\n"
                       "echo \"out;\";\nexit(2);\n", "out;s1;"))
+    # a return pending while finally runs the same METHOD on a child object (cleanup cascade) and a static method recursing
+    out.append((3, 0, "<?php\nclass R { public $n; public $c; function __construct($n, $c = null) { $this->n = $n; $this->c = $c; }\n"
+                      "  function close() { try { return \"closed \" . $this->n; } finally { echo \"f:\", $this->n, \";\"; "
+                      "if ($this->c !== null) { $r = $this->c->close(); echo \"child:\", $r, \";\"; } } }\n"
+                      "  static function down($k) { try { throw new Exception(\"k$k\"); } catch (Exception $e) { return \"ret \" . $e->getMessage(); } "
+                      "finally { if ($k > 0) { echo \"in:\", R::down($k - 1), \";\"; } } } }\n"
+                      "$t = new R(\"outer\", new R(\"middle\", new R(\"inner\")));\necho $t->close(), \"|\", R::down(2);\n",
+                "f:outer;f:middle;f:inner;child:closed inner;child:closed middle;closed outer|in:in:ret k0;ret k1;ret k2"))
     # catch clauses naming an undeclared class / a fully qualified built-in
     out.append((3, 0, "<?php\necho \"out;\";\ntry { throw new Exception(\"x\"); } catch (Undeclared $e) { echo \"wrong;\"; } "
                       "catch (\\Exception $e) { echo \"ns;\"; }\ntry { throw new Exception(\"y\"); } catch (\\Throwable $e) { echo \"thr;\"; }\n",
@@ -532,6 +579,8 @@ def main(ck):
             cases.append((pr, "hierarchy"))
         for pr in sequence_programs():
             cases.append((pr, "sequences"))
+        for pr in reentry_programs():
+            cases.append((pr, "reentry"))
         nrand = 250 if ck.tier == "quick" else 4000
         discarded = 0
         while nrand > 0:
